@@ -46,6 +46,21 @@ def generate(tier, rng):
         c.op(e.id, 'collect', 'iter/dup')
         c.op(e.id, 'variants', 'names/dup')
         c.op(e.id, 'varray', 'array/dup')
+    # generic enums LAST (the four-observable oracle below walks the ops before them in groups of four)
+    for j, gen in enumerate(('where', 'ty', 'const', 'ty_nd', 'lt')):
+        e = itercorpus.make_enum('c08g%d' % j, 'EnC08g%d' % j, 4, 'middle', generics=gen if gen != 'lt' else '',
+                                 derives=['EnumIter', 'EnumCount', 'VariantNames'] if gen != 'lt' else ['EnumCount', 'VariantNames'],
+                                 feats=['iter', 'count', 'vnames'] if gen != 'lt' else ['count', 'vnames'])
+        if gen == 'lt':
+            from ..spec import VSpec as _V
+            e.generics = 'lt'
+            e.variants.append(_V(ident='GenLt', kind='tuple', ftypes=['RefStr']))
+        e.extra['shape'] = 'generic %s' % gen
+        c.add(e)
+        c.op(e.id, 'count', 'count/generic')
+        c.op(e.id, 'variants', 'names/generic')
+        if gen != 'lt':
+            c.op(e.id, 'collect', 'iter/generic')
     return c
 
 
@@ -65,7 +80,8 @@ def run(tier, seed, rng):
     solo_stage(res, c)
     bad = 0
     imp = out['impl']
-    for k in range(0, len(c.ops), 4):
+    n4 = next((i for i, o in enumerate(c.ops) if o.eid.startswith('c08g')), len(c.ops))
+    for k in range(0, n4, 4):
         e = c.by_id[c.ops[k].eid]
         if imp[k] is None:
             continue
